@@ -5,6 +5,7 @@ pub mod c03;
 pub mod c04;
 pub mod c05;
 pub mod c06;
+pub mod c07;
 pub mod c08;
 pub mod c09;
 pub mod c10;
@@ -35,6 +36,7 @@ pub fn sim_check(id: &str, tier: &str, _seed: i64) -> Option<SimCheck> {
         "C04" => Some(c04::build(tier)),
         "C05" => Some(c05::build(tier)),
         "C06" => Some(c06::build(tier)),
+        "C07" => Some(c07::build(tier)),
         "C08" => Some(c08::build(tier)),
         "C09" => Some(c09::build(tier)),
         "C10" => Some(c10::build(tier)),
